@@ -53,6 +53,12 @@ def records(fails):
                     fails.append(f"{kw}: memmap and in-memory traces differ for {k} chain {c}")
         if n_rec and not np.allclose(tr["pos"][0][-1], fs[0].pos):
             fails.append(f"{kw}: last trace row is not the returned final state")
+    # overlapping trace keys: documented rule -- the last trace function returning a key is the one recorded
+    sysm, integ, s = make()
+    o = s.sample_chains(n_warm_up_iter=0, n_main_iter=5, init_states=[np.array([0.5, -0.2])], adapters=None, display_progress=False,
+                        trace_funcs=[lambda st: {"pos": st.pos, "a": st.pos[0]}, lambda st: {"pos": np.exp(st.pos)}])
+    if not np.allclose(np.array(o.traces["pos"][0])[-1], np.exp(o.final_states[0].pos)) or not np.allclose(np.array(o.traces["a"][0])[-1], o.final_states[0].pos[0]):
+        fails.append("two trace functions return the key 'pos': the recorded rows are not the last trace function's values (documented precedence)")
     try:
         sysm, integ, s = make()
         s.sample_chains(n_warm_up_iter=0, n_main_iter=2, init_states=[np.array([0.5, -0.2])], adapters=None, n_process=None, display_progress=False)
